@@ -251,6 +251,7 @@ class SplitV:
         ks = z3.simplify(k)
         if z3.is_int_value(ks) and ks.as_long() < 0:
             k = self.n() + ks
+        p.axioms += split_facts(self.z, self.sep)
         eng.oblige(p, f"{eng.cur_func}.split_index_in_range@L{getattr(node, 'lineno', 0)}", "safety", z3.And(0 <= k, k < self.n()), node)
         return self.at(eng, p, k)
 
@@ -2470,13 +2471,19 @@ class FirstMatchComp(WComp):
             raise Unsupported("index into a filtered list")
         guards, base = base_of(self)
         r = self.nonempty(eng, p)
+        w = p.ghost["witness:/"]
+        g = z3.And(*guards)
+        e = p.ghost.get("expected_match")
+        if e is not None:       # the member at position e passes the filter => the filtered list is not empty (e is a valid position: hypothesis)
+            p.axioms.append(z3.Implies(z3.substitute(g, (w, e)), r))
+            p.axioms += [z3.substitute(c, (w, e)) for c in p.ghost["hyp_at"](R.j0, w)]
         eng.oblige(p, "read_row_group.partition_level_found", "safety", r, node,
                    note="[p for p in partitions if p[0] == cat][0]: IndexError unless some level of THIS row group's path has the column as key")
         p.pc.append(r)
         f = eng.fresh_int("first_matching_level")
-        w = p.ghost["witness:/"]
-        g = z3.And(*guards)
-        p.pc += [0 <= f, f <= w, z3.substitute(g, (w, f))] + p.ghost["hyp_at"](R.j0, f)
+        p.pc += [0 <= f, z3.substitute(g, (w, f))] + p.ghost["hyp_at"](R.j0, f)
+        if e is not None:
+            p.pc.append(z3.Implies(z3.substitute(g, (w, e)), f <= e))       # FIRST match
         return subst_value(self.elt, [(w, f)])
 
 
@@ -2635,7 +2642,8 @@ def run_read_row_group(ctx, funcs, timeout, scheme, cats_meta, passed_meta):
     # CUT paths_to_cats[...].every_directory_value_has_its_category (+ keys_are_the_partition_names_in_directory_order)
     p.pc += [CATSHAS(key, R.VALNUM(txt, mid_cats))]
     p.pc += ([R.MID(key) != 0, R.MID(key) != R.STRMETA, R.VN_OK(txt, R.MID(key))] if cats_meta else [R.MID(key) == 0])
-    p.ghost["witness:/"] = c
+    p.ghost["witness:/"] = R.iL
+    p.ghost["expected_match"] = c
     p.ghost["hyp_at"] = hyp_at
     if solve(list(p.pc) + [R.D > 1], timeout)[0] == REFUTED:
         ctx.vacuity["requires_sat"] += 1
@@ -2736,6 +2744,150 @@ def call_site_obligations(ctx, tree_api):
     return res
 
 
+# =================================================================================================================================
+#  util.get_file_scheme
+# =================================================================================================================================
+class SetLit:
+    tracked = False
+
+    def __init__(self, items):
+        self.items = items
+
+
+class PathsG(PathsV):
+    """paths given to get_file_scheme: N texts (no None among them)"""
+
+    def truth(self, eng, p):
+        return R.N > 0
+
+    def contains(self, eng, p, item):
+        if isinstance(item, NoneV):
+            return z3.BoolVal(False)
+        raise Unsupported("membership in paths")
+
+
+class SetOfPaths:
+    tracked = False
+
+    def eq(self, eng, p, other):
+        if isinstance(other, Custom) and isinstance(other.h, SetLit) and len(other.h.items) == 1 and isinstance(other.h.items[0], NoneV):
+            return z3.BoolVal(False)         # scenario: the paths are texts
+        raise Unsupported("set comparison")
+
+
+class DepthSet:
+    """set(lens): scenario hypothesis - every path has the same number of '/'-pieces"""
+    tracked = False
+
+    def __init__(self, comp):
+        self.comp = comp
+
+    def len(self, eng, p):
+        return PyI(z3.If(self.comp.nonempty(eng, p), 1, 0))
+
+    def eq(self, eng, p, other):
+        if isinstance(other, Custom) and isinstance(other.h, SetLit) and len(other.h.items) == 1 and isinstance(other.h.items[0], PyI):
+            return z3.And(self.comp.nonempty(eng, p), eng.as_int(self.comp.elt) == other.h.items[0].z)
+        raise Unsupported("set comparison")
+
+
+class GEng(REng):
+    def e_Set(self, e, p):
+        return [(q, Custom(SetLit(vs))) for q, vs in self.ev_list(e.elts, p)]
+
+
+def h_all_intro(eng, p, args, kw, node):
+    """all(<comprehension>): True when the element is valid for the ARBITRARY member under the scenario's universally quantified
+    hypotheses (forall-introduction), False when some member (the witness) falsifies it; else undetermined with the universal direction"""
+    v = args[0]
+    if not (isinstance(v, Custom) and isinstance(v.h, AbstractComp)):
+        raise Unsupported("all()")
+    h = v.h
+    e = eng.truth(h.elt, p)
+    cs = list(p.pc) + list(p.axioms)
+    if solve(cs + [h.guard, z3.Not(e)], 3000)[0] == PROVED:
+        return [(p, PyB(True))]
+    if solve(cs + [z3.Not(z3.And(h.guard, z3.Not(e)))], 3000)[0] == PROVED:
+        return [(p, PyB(False))]
+    r = eng.fresh("all", B)
+    p.axioms.append(z3.Implies(r, z3.Implies(h.guard, e)))
+    return [(p, PyB(r))]
+
+
+def run_get_file_scheme(ctx, funcs, timeout):
+    res = Results()
+    P = "get_file_scheme."
+    lvl_full = lambda j, i: PIECE["/"](R.PATHT(j), z3.simplify(i))
+
+    def interior_eq(z):
+        n = z3.Length(z)
+        return z3.Contains(z3.SubString(z, 1, n - 2), EQ)
+
+    def run(hyps, depth_uniform=True):
+        def h_set(eng, p, args, kw, node):
+            v = args[0]
+            if isinstance(v, Custom) and isinstance(v.h, PathsG):
+                return [(p, Custom(SetOfPaths()))]
+            if isinstance(v, Custom) and isinstance(v.h, AbstractComp) and isinstance(v.h.elt, PyI) and depth_uniform:
+                return [(p, Custom(DepthSet(v.h)))]
+            raise Unsupported("set(...)")
+        eng = GEng(funcs=funcs, handlers={"set": h_set, "all": h_all_intro, "str": h_str}, opaque_calls=True)
+        p = Path()
+        p.pc += [R.N >= 0, 0 <= R.j0, 0 <= R.iL] + hyps
+        p.ghost["witness:/"] = R.iL
+        outs = eng.run("get_file_scheme", p, [Custom(PathsG())])
+        discharge_engine(eng, res, P, timeout)
+        return [(q, q.ctl[1].s if q.ctl[0] == "ret" and isinstance(q.ctl[1], Str) else str(q.ctl)) for q in outs]
+
+    def feasible(q, extra=()):
+        return solve(list(q.pc) + list(q.axioms) + list(extra), timeout)[0] != PROVED
+
+    def only(outs, want, name, detail, extra=()):
+        bad = [(q, s_) for q, s_ in outs if s_ != want and feasible(q, extra)]
+        good = [q for q, s_ in outs if s_ == want and feasible(q, extra)]
+        m = solve(list(bad[0][0].pc) + list(bad[0][0].axioms) + list(extra), timeout)[1] if bad else None
+        res.add(P + name, PROVED if good and not bad else REFUTED,
+                {"returned": bad[0][1], "path": mval(m, R.PATHT(R.j0)) if m is not None else None} if bad else None, 0.0, "z3", detail)
+        return good
+    z, L = R.PATHT(R.j0), lvl_full(R.j0, R.iL)
+    depth = [NPIECES["/"](z) == R.D + 1] + split_facts(z, "/")
+    n_cov = 0
+    # every level of every path is name=text with non-empty name and text (what the hive writer produces for non-empty texts)
+    kv = [L == z3.Concat(R.KEYN(R.iL), EQ, R.TXT(R.j0, R.iL)), z3.Length(R.KEYN(R.iL)) > 0, z3.Length(R.TXT(R.j0, R.iL)) > 0]
+    outs = run(depth + [R.D >= 1] + kv)
+    good = only(outs, "hive", "hive_when_every_level_is_key_equals_value", "same depth >= 1 and every directory level is name=text with non-empty name "
+                "and text => 'hive'", [R.N > 0])
+    n_cov += len(good)
+    # 'hive' only if every level has an '=' strictly inside (arbitrary paths of the same depth)
+    outs = run(depth + [R.D >= 1])
+    for q, s_ in outs:
+        if s_ != "hive":
+            continue
+        n_cov += 1
+        cs = list(q.pc) + list(q.axioms) + [0 <= R.j0, R.j0 < R.N, R.iL < R.D]
+        st_, m, secs = solve(cs + [z3.Not(interior_eq(L))], timeout)
+        res.add(P + "hive_only_if_every_level_has_an_interior_equals", st_, {"level": mval(m, L)} if m is not None else None, secs, "z3",
+                "'hive' is returned only when EVERY directory level of EVERY path contains '=' with a non-empty name before and something after it")
+        # ... with the same keys in the same order in every path: a second arbitrary path j1 (universal facts instantiated at it as well)
+        j1 = z3.Int("second_row_group")
+        cs2 = cs + [z3.substitute(c, (R.j0, j1)) for c in cs]
+        k0, k1 = PIECE["="](L, 0), PIECE["="](lvl_full(j1, R.iL), 0)
+        st_, m, secs = solve(cs2 + split_facts(L, "=") + split_facts(lvl_full(j1, R.iL), "=") + [z3.Not(k0 == k1)], timeout)
+        res.add(P + "hive_only_if_all_paths_have_the_same_keys_in_the_same_order", st_,
+                {"level of one path": mval(m, L), "same level of another path": mval(m, lvl_full(j1, R.iL))} if m is not None else None, secs, "z3",
+                "'hive' is returned only when level i has the SAME key in every path (property: one column per level)")
+    # some level without interior '=' => 'drill'
+    outs = run(depth + [R.D >= 1, R.iL < R.D, z3.Not(interior_eq(L))])
+    n_cov += len(only(outs, "drill", "drill_when_some_level_has_no_interior_equals", "same depth >= 1 and a level that is not name=text => 'drill'",
+                      [R.N > 0, R.j0 < R.N]))
+    outs = run(depth + [R.D == 0])
+    n_cov += len(only(outs, "flat", "flat_when_no_directory_level", "every path is a bare file name => 'flat'", [R.N > 0]))
+    outs = run([R.N == 0])
+    n_cov += len(only(outs, "empty", "empty_when_no_paths", "no paths => 'empty'"))
+    ctx.vacuity["covers"] += n_cov
+    return res
+
+
 def check(ctx, timeout):
     u, _, _ = parse_module("fastparquet/util.py")
     w, _, _ = parse_module("fastparquet/writer.py")
@@ -2761,6 +2913,8 @@ def check(ctx, timeout):
                                                  ("drill", False, True, True), ("drill", False, True, False), ("drill", False, False, True)):
         nm = f"paths_to_cats[{written_as},{with_meta},{clean_},{homog}]"
         out.append(guard(nm, lambda: run_paths_to_cats(ctx, af, timeout, written_as, with_meta, clean_, homog)))
+    ctx.function("util.get_file_scheme", u["get_file_scheme"].sha, u["get_file_scheme"].report)
+    out.append(guard("get_file_scheme", lambda: run_get_file_scheme(ctx, u, timeout)))
     c, _, _ = parse_module("fastparquet/core.py")
     ctx.function("core.read_row_group", c["read_row_group"].sha, c["read_row_group"].report)
     for scheme, cats_meta, passed in (("hive", True, True), ("hive", True, False), ("hive", False, False), ("drill", False, False)):
@@ -2768,6 +2922,12 @@ def check(ctx, timeout):
     for n in ("ParquetFile._read_partitions", "ParquetFile.__init__", "ParquetFile.to_pandas", "ParquetFile.read_row_group_file"):
         ctx.function("api." + n, a[n].sha, a[n].report)
     out.append(guard("ParquetFile", lambda: call_site_obligations(ctx, parse_module("fastparquet/api.py")[1])))
+    r = Results()
+    r.add("analyse_paths.out_of_reach", UNKNOWN, None, 0.0, "engine",
+          "util.analyse_paths is NOT under contract: root=False needs the nested zip/enumerate/break loop as one inductive invariant over lists of "
+          "piece lists (longest common directory prefix), root given needs list-slice equality p[:l] == basepath and '/'.join of a symbolic "
+          "slice; it is not on the write/read path of a dataset with _metadata (file_path comes from the footer) - bounded layer only")
+    out.append(r)
     return out
 
 
@@ -2783,10 +2943,61 @@ def guard(name, fn):
 
 import re as _re
 
-# obligation-name patterns refuted on the unchanged tree <-> recorded findings (props/_paths.py marks them refuted-known)
+# obligation-name patterns refuted on the unchanged tree <-> recorded findings: (ids in order of preference, pattern).  The first id that
+# is listed in KNOWN_FINDINGS.jsonl is used (the P-layer records of contracts/findings.jsonl; before they are merged, the bounded
+# finding they re-derive).  Every pattern has a sibling obligation PROVED under the complementary precondition.
+FID_P_BACKSLASH, FID_P_MIXED, FID_P_RT = "C08-P-backslash-level-altered", "C08-P-mixed-level-category-missing", "C08-P-roundtrip-tz-aware-and-categorical"
 KNOWN = [
-    (FID_BACKSLASH, _re.compile(r"^partition_on_columns\[(hive|drill)\]\.level_reaches_the_path_verbatim\[any legal directory name\]$")),
-    (FID_DOTDOT, _re.compile(r"^partition_on_columns\[drill\]\.level_is_not_a_dot_segment\[any value text\]$")),
+    ((FID_P_BACKSLASH, FID_BACKSLASH), _re.compile(r"^partition_on_columns\[(hive|drill)\]\.level_reaches_the_path_verbatim\[any legal directory name\]$")),
+    ((FID_DOTDOT,), _re.compile(r"^partition_on_columns\[drill\]\.level_is_not_a_dot_segment\[any value text\]$")),
+    ((FID_EQUALS,), _re.compile(r"^paths_to_cats\[hive dataset, metadata, any value text\]\.(scheme_detected_is_the_layout_written|does_not_raise)$")),
+    ((FID_DRILL_AS_HIVE,), _re.compile(r"^paths_to_cats\[drill dataset, no metadata, any value text\]\.(scheme_detected_is_the_layout_written|does_not_raise)$")),
+    ((FID_P_MIXED, FID_DRILL_MIXED), _re.compile(r"^paths_to_cats\[drill dataset, no metadata, levels may mix re-typable and plain text\]\.")),
+    ((FID_NO_META,), _re.compile(r"^(ParquetFile\.__init__\.paths_to_cats_gets_the_partition_metadata|ParquetFile\.read_row_group_file\."
+                                 r"default_is_the_datasets_partition_metadata|read_row_group\[hive, partition_meta not passed\]\.(category_found|does_not_raise)|"
+                                 r"val_to_num\.text_stays_text\[no metadata, any text\])$")),
+    ((FID_SCHEME,), _re.compile(r"^get_file_scheme\.hive_only_if_all_paths_have_the_same_keys_in_the_same_order$")),
+    ((FID_P_RT, "C08-tz-aware-timestamp-partition-unreadable"), _re.compile(r"^val_(from_meta|to_num)\.roundtrip\[timestamp tz-aware\]$")),
+    ((FID_P_RT, "C08-categorical-nontext-partition-kind-lost"), _re.compile(r"^val_(from_meta|to_num)\.roundtrip\[categorical of ints\]$")),
 ]
 
-ASSUMED = []
+ASSUMED = [
+    "C08 texts: str.replace('\\\\','/') / rstrip('/') / lstrip / strip are uninterpreted functions with these facts (instantiated per application): "
+    "replace keeps the length, leaves no backslash, is the identity without backslash, turns a backslash into '/', keeps a leading '/' and the "
+    "presence of '=' ; rstrip('/') returns a prefix that does not end with '/', is the identity when the text does not end with '/', keeps a "
+    "leading '/' of a non-empty result and keeps '='.  One-character Contains / first / last character of a concatenation are THEOREMS used as hints",
+    "str.split(sep) (one-character sep): at least one piece; exactly one iff sep does not occur; the first piece has no sep and is a prefix; "
+    "for s == a + sep + b with no sep in a the pieces are a followed by the pieces of b.  rsplit('/', 1)[0] of a text with '/' is the text "
+    "before the last '/', whose '/'-pieces are all but the last piece.  The directory LEVELS of a relative path are by definition these pieces; "
+    "'/'.join(xs).split('/') == xs when no x contains '/' (join_path's result has the kept components as its levels)",
+    "str(s) is s for a str; '%s' % x == str(x), '%s=%s' % (a, b) == str(a) + '=' + str(b); an f-string concatenates the same texts; "
+    "'%i' % n / f'{n}' is the decimal text of n: injective, without '=' and '/'",
+    "pandas: DataFrame.groupby(by, observed=False) with dropna at its default drops every row that has a null in a grouping key; the groups "
+    "partition the remaining rows; each group's frame has the rows of the frame with exactly that key combination (all columns); the key is a "
+    "scalar for a single label and a tuple with one element per label, in label order, for a list of labels; sorted(gb) yields each "
+    "(key, group) once; unobserved category combinations give EMPTY groups; frame[list of labels] keeps all rows and exactly those columns; "
+    "list(frame) is the list of its (distinct) column labels; list.remove(x) removes the first element equal to x (ValueError if absent)",
+    "writer.make_part_file(f, df, ...) writes only to f, returns None iff df has no rows, else ONE row group describing exactly df's rows "
+    "(covered by C02/C01); open_with / mkdirs are the only other I/O of partition_on_columns; write_multi passes partname = 'part.%i.parquet' "
+    "(non-empty, no separator) - contracts/c07_parts.py",
+    "ORACLE for 'the directory named by its key values': a text NAMES a value when parsing it by the value's kind gives the value back; "
+    "str(v) names v for int / float / bool / text / Timestamp values and v.isoformat() names a tz-naive Timestamp (Python / pandas)",
+    "numpy / Python parsers on the writer's texts (validated natively by tools/c08native.py, not proved): np.int64(str(i)) == i, np.float64(str(f)) == f, "
+    "np.datetime64(ts.isoformat()) is the same instant, np.str_(x) == x and np.object_(x) is x for every text, np.dtype(name).type produces a "
+    "value of its own kind, np.dtype('datetime64[us, UTC]') raises TypeError; int()/float()/pd.Timestamp() accept exactly their own str() forms "
+    "among the writer's texts: str(float) is never accepted by int(), an ISO timestamp by neither int() nor float(); str(True/False) is "
+    "'True'/'False'; none of these texts is 'now','NOW','TODAY','' or lower-cases to 'nan' (null keys are outside the property); functools.lru_cache is transparent",
+    "util.get_column_metadata writes (pandas_type, numpy_type) = int64:(int64,int64) float64:(float64,float64) bool:(bool,bool) "
+    "datetime64[ns]:(datetime,datetime64[ns]) str:(unicode,str) object:(unicode,object) categorical:(categorical,<codes dtype>) tz-aware:"
+    "(datetimetz,'datetime64[us, UTC]') - table checked against the real function by tools/c08native.py",
+    "values compare by == / hash as Python does: values of different kinds (int / bool / text / float / timestamp) are different values; "
+    "set / OrderedDict: membership by ==, OrderedDict keeps first-insertion order, iterating the same unmodified set twice gives the same order; "
+    "list.index(x) returns a position holding an element == x (ValueError if none); zip pairs positions; sorted/enumerate as documented",
+    "read side scenarios: every file of the dataset sits at the same depth D >= 1 and level i of every path is name_i=text (hive) / text (drill) "
+    "with distinct, non-empty column names without '=' - this is exactly what partition_on_columns[...] establishes for the writer (one arbitrary "
+    "group, names/texts without backslash); the part file name is not itself 'name=...' with name a partition column; the paths are texts "
+    "(multi-file dataset: no None file_path); val_to_num is used through its lemmas (cuts): text-like metadata returns the text and never "
+    "raises, non-text metadata never returns a str, the writer's texts parse under their column's metadata (roundtrip lemmas), no metadata never raises",
+    "loop exits: a loop that completed did not raise in any iteration; raising paths of the body whose branch conditions do not depend on the "
+    "loop-carried state are excluded at the exit for the witness member (universal fact instantiated at the witness)",
+]
